@@ -74,6 +74,18 @@ SCENARIOS["fragment-on-parent-interface-spread-at-a-child-interface-field"] = FR
 # a __typename the author wrote with an alias or a directive stays as written (the automatic one is added next to it or not at all)
 SCENARIOS["authored-typename-with-alias-or-directive-at-abstract-positions"] = FRAGS + (
     'query T($v: Boolean!) { node(id: "1") { __typename @include(if: $v) id } me { kind: __typename id } }')
+# text inside string literals that looks like GraphQL syntax (a directive, commas, braces, a comment, a spread, a variable): it is
+# data and travels unchanged; a long operation header (many variable definitions with string defaults) is printed on one line by
+# print_ast - however the generator lays the text out, the definitions and their defaults stay what the author wrote
+SCENARIOS["string-literal-looking-like-a-directive"] = FRAGS + (
+    'query S($t: String = "default @mixin(from: x) end") { search(text: "see @mixin(from: a, import: b) and @include(if: true) here", opts: $t) { __typename } }')
+SCENARIOS["string-literal-with-syntax-characters"] = FRAGS + (
+    'query S { a: search(text: "a, b { c } ...d $e # f ( g: h ) [i]") { __typename } b: search(text: "query Q { me }", opts: "x,  y ,z") { __typename } }')
+SCENARIOS["long-operation-header-with-string-defaults"] = FRAGS + (
+    'query LongHeader($firstGreeting: String = "Hello, world", $secondGreeting: String = "a, b, c", $limitOfFriends: Int = 10, '
+    '$tagForFriends: String = "x, y", $idOfTheNode: ID = "n, 1", $textToSearchFor: String! = "one, two") { '
+    'a: search(text: $textToSearchFor, opts: $firstGreeting) { __typename } b: search(text: "t", opts: $secondGreeting) { __typename } '
+    'me { friends(first: $limitOfFriends, tag: $tagForFriends) { id } } node(id: $idOfTheNode) { id } }')
 REFUSAL_OK = {"mixin-on-inline-fragment-and-fragment-spread"}
 SCENARIOS["mixin-on-fragment-definition"] = FRAGS + 'fragment WithMixin on User @mixin(from: "pyvc_mixins", import: "FragDefMixin") { id }\nquery M { me { ...WithMixin } }'
 
